@@ -39,7 +39,7 @@ def run_one(m, keep=False, repo="/repo"):
         ok = True
         why = ""
         for prop in m["props"]:
-            cp = subprocess.run([os.path.join(VERIF, "bin", "c4echeck"), "-prop", prop, "-tier", "quick", "-repo", os.path.join(d, "src"), "-verif", VERIF, "-out", out],
+            cp = subprocess.run([os.environ.get("C4E_BIN", os.path.join(VERIF, "bin", "c4echeck")), "-prop", prop, "-tier", "quick", "-repo", os.path.join(d, "src"), "-verif", VERIF, "-out", out],
                                 capture_output=True, text=True, env=ENV)
             txt = cp.stdout + cp.stderr
             if "type errors in module packages" in txt or "packages.Load" in txt:
